@@ -168,6 +168,8 @@ def safe_oracle(sub, case):
 
 def _observe(sub, rec, case, known_sigs, sample_every):
     rec.evaluations += 1
+    # the oracle runs first so that classification may use what it observed (e.g. number of tracts)
+    fails = safe_oracle(sub, case)
     try:
         nt = bool(sub.nontrivial(case))
         labels = list(sub.classes(case))
@@ -182,7 +184,7 @@ def _observe(sub, rec, case, known_sigs, sample_every):
             rec.samples.append(_jsonable(sub.render(case)))
         except Exception:
             rec.samples.append(_jsonable(case))
-    for f in safe_oracle(sub, case):
+    for f in fails:
         if f.sig in known_sigs:
             rec.known_hits[f.sig] += 1
         else:
